@@ -117,6 +117,28 @@ def gen_circuit(rng, exhaustive=None):
     return {"name": rng.choice(["top", "top", "c17", "m_2", "adder"]), "nodes": nodes, "bbs": bbs}
 
 
+def gen_invented(rng, op):
+    """a 3/4-operand gate together with gates legally named like every name the reader can invent for its first two operands
+    (and_a_b, and_b_a, ...): whatever operand order and statement order the writer chooses, one of them collides unless the
+    reader keeps its invented names away from identifiers that occur later in the text"""
+    ins = rng.sample(["a", "b", "c", "d", "e1"], rng.choice([3, 3, 4]))
+    t = rng.choice({"and": ["and", "nand"], "or": ["or", "nor"], "xor": ["xor", "xnor"]}[op])
+    nodes = [[i, "input", False, []] for i in ins]
+    nodes.append(["w", t, True, sorted(ins)])
+    for x in ins:
+        for y in ins:
+            if x != y:
+                g = rng.choice(["buf", "not", "and", "or", "xor", "nor"])
+                fi = [rng.choice(ins)] if g in ("buf", "not") else sorted(rng.sample(ins, 2))
+                nodes.append([f"{op}_{x}_{y}", g, rng.random() < 0.7, fi])
+    used = {f for n in nodes for f in n[3]}
+    for n in nodes:
+        if n[1] != "input" and n[0] not in used:
+            n[2] = True
+    rng.shuffle(nodes)
+    return {"name": "top", "nodes": nodes, "bbs": []}
+
+
 def generate(rng, tier):
     n = 110 if tier == "quick" else 500
     out = []
@@ -127,6 +149,9 @@ def generate(rng, tier):
                 # one-operand inverting gates in assign style are always present (the inversion must survive without an operator)
                 if tier == "thorough" or rng.random() < 0.35 or (ar == 1 and beh and t in ("nand", "nor", "xnor")):
                     out.append({"circuit": gen_circuit(rng, (t, ar)), "behavioral": beh, "via": "grid"})
+    for op in ("and", "or", "xor"):
+        for _ in range(2 if tier == "quick" else 8):
+            out.append({"circuit": gen_invented(rng, op), "behavioral": True, "via": "invented-names"})
     for _ in range(n):
         out.append({"circuit": gen_circuit(rng), "behavioral": rng.random() < 0.5, "via": "random"})
     return out
@@ -243,7 +268,7 @@ def nontrivial(case, obs):
 
 def classify(case, obs):
     d = case["circuit"]
-    tags = ["style:" + ("assign" if case["behavioral"] else "primitive"),
+    tags = ["via:" + case.get("via", "?"), "style:" + ("assign" if case["behavioral"] else "primitive"),
             "write:" + obs["write_exc"] if "write_exc" in obs else "back:" + ("ok" if "ok" in obs.get("back", {}) else "exc")]
     for n in d["nodes"]:
         if n[1] in lib.GATES:
